@@ -142,8 +142,12 @@ def oracle_stream(c, o, complete, what):
                 return '%s returned a message without consuming any input' % what
             buf = buf[len(buf) - rem:]
         elif e[0] == 1:
+            rem = e[1]
+            if complete(buf) and rem >= len(buf):
+                return '%s asked for more bytes although a complete frame is buffered and nothing was consumed (stall)' % what
+            buf = buf[len(buf) - rem:] if rem else []
             if complete(buf):
-                return '%s asked for more bytes although a complete frame is buffered (stall)' % what
+                return '%s asked for more bytes although what it left in the buffer starts with a complete frame (stall)' % what
             new_chunk = True
         elif e[0] == 2:
             return None
@@ -652,6 +656,33 @@ def gen_fuzz_seeded(rng, n):
         out.append({'k': 'fuzz', 'codec': codec, 'chunks': [E.update([], attrs, []).d]})
     return out
 
+def gen_fuzz_sweep(rng, tier):
+    """Structure-aware boundary sweep for the families that are only fuzzed: every octet of every
+    wire test vector of the repository (each is a length, count, type or prefix-length octet, or
+    data) set to its neighbours and extremes, one at a time, the rest of the NLRI left valid; and
+    every vector cut short by 1..2 octets at the end.  This is what reaches 'a TLV short by exactly
+    one octet' and 'prefix length one more than the address octets present'."""
+    out = []
+    seeds = seed_vectors()
+    quick = tier == 'quick'
+    for fl, bs in seeds:
+        fams = fl if not quick else fl[:2]
+        for fam in fams:
+            variants = []
+            for i, b in enumerate(bs):
+                vals = [(b + 1) & 0xff, (b - 1) & 0xff, 0, 0xff] + ([(b + 8) & 0xff, (b + 2) & 0xff, 0x80, 1] if not quick else [])
+                for v in dict.fromkeys(vals):
+                    if v != b:
+                        variants.append(bs[:i] + [v] + bs[i + 1:])
+            for k in (1, 2):
+                if len(bs) > k: variants.append(bs[:-k])
+            for v in variants:
+                codec = {'ext': False, 'two': False, 'nh': False, 'fams': [(E.IPV4, False), (fam, False)]}
+                nh = [] if (fam & 0xff) in (133, 134) else [10, 0, 0, 1]
+                attrs = [E.attr(0x40, 1, [0]), E.attr(0x40, 2, []), E.attr(0x80, 14, E.mp_reach_value(fam, nh, [B(v)]))]
+                out.append({'k': 'fuzz', 'codec': codec, 'chunks': [E.update([], attrs, []).d]})
+    return out
+
 def bgp_complete_for(codec):
     mx = 65535 if codec['ext'] else 4096
     def complete(buf):
@@ -689,7 +720,7 @@ class Prop:
                          'rtr_need_only_if_incomplete', 'rtr_fragmentation_invariant',
                          'bgp_parse_no_panic_partial', 'bgp_parse_consumes_partial',
                          'bgp_complete_frame_decided_partial', 'bgp_need_only_if_incomplete_partial',
-                         'bgp_fragmentation_invariant_partial']
+                         'bgp_fragmentation_invariant_partial', 'bgp_errors_are_notifications_partial']
     correspondence_name = ('Model/Bfd.v bfd_decode vs packet/src/bfd.rs Message::decode; Model/Rtr.v rtr_decode vs packet/src/rpki.rs '
                            'RtrCodec::decode; Model/Wire*.v try_parse vs packet/src/bgp.rs PeerCodec::try_parse/parse_message (with vpn.rs, '
                            'labeled.rs, mpls.rs, rd.rs); each driven chunk by chunk as run_select / FramedRead do '
@@ -753,7 +784,7 @@ class Prop:
     # ---- generation
     def gen_cases(self, rng, tier):
         q = tier == 'quick'
-        return gen_bfd(rng, 300 if q else 3000) + gen_rtr(rng, 600 if q else 6000) + gen_bgp(rng, 2500 if q else 25000, tier) + gen_fuzz(rng, 1500 if q else 30000) + gen_fuzz_seeded(rng, 2500 if q else 60000)
+        return gen_bfd(rng, 300 if q else 3000) + gen_rtr(rng, 600 if q else 6000) + gen_bgp(rng, 2500 if q else 25000, tier) + gen_fuzz(rng, 1500 if q else 30000) + gen_fuzz_seeded(rng, 2500 if q else 60000) + gen_fuzz_sweep(rng, tier)
 
     # ---- running
     def run_impl(self, cases, tier):
